@@ -1,13 +1,89 @@
 import BlugeProofs.C20.Size
 import BlugeProofs.C20.Gen
+import BlugeProofs.C20.Order
+import BlugeProofs.C20.Merge
+import BlugeProofs.C20.Bundled
 /-! # C20 — highlighted fragments are faithful to the stored text
 Property theorems only (helper lemmas live in `BlugeProofs/C20/*.lean`); the model is `Bluge.Highlight`.
 `none` is a Go run-time panic; offsets are byte offsets; `locsOK` = valid UTF-8 text and locations sorted
 by Start, in range, on rune boundaries (what a search with the bundled analyzers produces).
-`v : Variant` says which of the proposed repairs the modelled tree contains: `pinned` = none (the tree as
-pinned), `repaired` = all three (work/C20/fix-1..3); theorems without a condition on `v` hold for every tree. -/
+
+`v : Variant` says which repairs the modelled tree contains: `pinned` = none (the tree as pinned), `tree3` =
+repairs 1–3 (the fix: commits a31c68e, 1070e7e, 997011d), `repaired` = all five (work/C20/fix-1..5); theorems
+without a condition on `v` hold for every tree.
+
+`BestFragments` sorts the map's locations with `sort.Sort` (not stable) after a random map iteration, so the
+slice `ot` it works on is SOME `Less`-sorted permutation of the map's locations `locs`. The theorems about
+BestFragments are therefore stated for `bestSelectionOrd`/`bestFragmentsOrd … locs ot` and EVERY such `ot`
+(`Ordered v locs ot`, or no condition at all where none is needed); `bestFragments … locs` is the instance
+`ot = orderTermLocations v.tieBreak locs` the driver computes (`stable_order_is_ordered`). -/
 namespace Bluge.C20
 open Bluge.Highlight
+
+/-! ## the order OrderTermLocations returns -/
+
+/-- what OrderTermLocations guarantees about the slice it returns, whatever the sorting algorithm and the map
+iteration order: a permutation of the map's locations in which no element is `Less` than an earlier one -/
+def Ordered (v : Variant) (locs ot : List TermLocation) : Prop := ot.Perm locs ∧ sortedFor v.tieBreak ot = true
+
+/-- the order the model driver uses is one of them -/
+theorem stable_order_is_ordered (v : Variant) (locs : List TermLocation) :
+    Ordered v locs (orderTermLocations v.tieBreak locs) ∧
+    (∀ fm orig fsize num, bestFragments v fm orig fsize num locs =
+      bestFragmentsOrd v fm orig fsize num locs (orderTermLocations v.tieBreak locs)) :=
+  ⟨⟨orderTermLocations_perm _ locs, sortedFor_orderTermLocations _ locs⟩, fun _ _ _ _ => rfl⟩
+
+/-- the statement: the fragments and the formatted strings (either formatter) do not depend on which admissible
+order OrderTermLocations returned -/
+def OrderIndependent (v : Variant) : Prop :=
+  ∀ (fm : Fmt) (orig : Bytes) (fsize num : Int) (locs ot : List TermLocation), Ordered v locs ot →
+    bestSelectionOrd v orig fsize num locs ot = bestSelection v orig fsize num locs ∧
+    bestFragmentsOrd v fm orig fsize num locs ot = bestFragments v fm orig fsize num locs
+
+/-- FALSE on every tree whose `Less` compares Start only (with or without repair 5): text "abcde fgh", the
+locations "abc" = [0,3), "abcde" = [0,5) (same Start, different End) and "fgh" = [6,9), fragment size 5, two
+fragments asked for. The fragmenter sets `maxbegin` to the End of the location it just handled: with "abc" handled
+last it falls back to 3, the window of "fgh" grows back to [4,9), overlaps the first fragment [0,5) and is dropped.
+The two admissible orders give two fragments ([0,5), [5,9)) and one fragment ([0,5)). -/
+theorem order_independent_fails (v : Variant) (hv : v.tieBreak = false) : ¬ OrderIndependent v := by
+  intro h
+  have h1 := (h htmlFmt [0x61, 0x62, 0x63, 0x64, 0x65, 0x20, 0x66, 0x67, 0x68] 5 2
+    [⟨"abc", 1, 0, 3⟩, ⟨"abcde", 2, 0, 5⟩, ⟨"fgh", 3, 6, 9⟩] [⟨"abc", 1, 0, 3⟩, ⟨"abcde", 2, 0, 5⟩, ⟨"fgh", 3, 6, 9⟩]
+    ⟨List.Perm.refl _, by rw [hv]; decide⟩).1
+  have h2 := (h htmlFmt [0x61, 0x62, 0x63, 0x64, 0x65, 0x20, 0x66, 0x67, 0x68] 5 2
+    [⟨"abc", 1, 0, 3⟩, ⟨"abcde", 2, 0, 5⟩, ⟨"fgh", 3, 6, 9⟩] [⟨"abcde", 2, 0, 5⟩, ⟨"abc", 1, 0, 3⟩, ⟨"fgh", 3, 6, 9⟩]
+    ⟨List.Perm.swap _ _ _, by rw [hv]; decide⟩).1
+  rw [← h2] at h1
+  obtain ⟨a, b, c, d, e⟩ := v
+  simp only at hv
+  subst hv
+  revert h1
+  cases a <;> cases b <;> cases c <;> cases e <;> decide
+
+/-- the formatted strings differ as well: "abcde" with "abc" = [0,3) and "abcde" = [0,5) gives
+`<mark>abcde</mark>` or `<mark>abc</mark>de` on the current tree (observed on the real code, see DESIGN) -/
+example : bestFragmentsOrd tree3 htmlFmt [0x61, 0x62, 0x63, 0x64, 0x65] 9 1 [⟨"abc", 1, 0, 3⟩, ⟨"abcde", 2, 0, 5⟩]
+      [⟨"abc", 1, 0, 3⟩, ⟨"abcde", 2, 0, 5⟩] = some [markOpen ++ [0x61, 0x62, 0x63, 0x64, 0x65] ++ markClose] ∧
+    bestFragmentsOrd tree3 htmlFmt [0x61, 0x62, 0x63, 0x64, 0x65] 9 1 [⟨"abc", 1, 0, 3⟩, ⟨"abcde", 2, 0, 5⟩]
+      [⟨"abcde", 2, 0, 5⟩, ⟨"abc", 1, 0, 3⟩] = some [markOpen ++ [0x61, 0x62, 0x63] ++ markClose ++ [0x64, 0x65]] := by
+  decide
+
+/-- every tree, ANY text, size, count, formatter: when locations with the same Start also have the same End
+(`tiesAgree`: all that a tokenizer followed by the n-gram / edge-n-gram filters, or by 1:1 filters, produces —
+and trivially when all Starts are distinct), every admissible order gives the same fragments and the same strings. -/
+theorem order_independent_partial (v : Variant) (fm : Fmt) (orig : Bytes) (fsize num : Int) (locs ot : List TermLocation)
+    (ho : Ordered v locs ot) (ht : tiesAgree locs = true) :
+    bestSelectionOrd v orig fsize num locs ot = bestSelection v orig fsize num locs ∧
+    bestFragmentsOrd v fm orig fsize num locs ot = bestFragments v fm orig fsize num locs :=
+  best_order_irrelevant v fm orig fsize num locs ot ho.1 ho.2 (Or.inr ht)
+
+/-- a tree with repair 4 (`Less` compares (Start, End)): the full statement. -/
+theorem order_independent_repaired (v : Variant) (hv : v.tieBreak = true) : OrderIndependent v :=
+  fun fm orig fsize num locs ot ho => best_order_irrelevant v fm orig fsize num locs ot ho.1 ho.2 (Or.inl hv)
+
+example : tiesAgree [⟨"q", 1, 0, 5⟩, ⟨"qu", 1, 0, 5⟩, ⟨"b", 2, 6, 11⟩] = true ∧
+    Ordered tree3 [⟨"q", 1, 0, 5⟩, ⟨"qu", 1, 0, 5⟩, ⟨"b", 2, 6, 11⟩] [⟨"qu", 1, 0, 5⟩, ⟨"q", 1, 0, 5⟩, ⟨"b", 2, 6, 11⟩] :=
+  ⟨by decide, List.Perm.swap _ _ _, by decide⟩
 
 /-! ## the formatted string, stripped of its markup, is exactly `orig[start:end]` -/
 
@@ -33,19 +109,19 @@ def FaithfulTo (strip : Bytes → Bytes) (orig : Bytes) (f : Fragment) (out : By
   ∃ s, out = (if f.start ≠ 0 then separator else []) ++ s ++ (if f.stop ≠ orig.length then separator else []) ∧
        slice orig f.start f.stop = some (strip s)
 
-/-- BestFragments with the HTML formatter, ANY text, locations, size and count: the i-th returned string is
-(separator) + s + (separator) with `s` stripped = `orig[f.Start:f.End]` for the i-th selected fragment `f`
-— a contiguous piece of the original. -/
-theorem best_fragments_faithful_html (v : Variant) (orig : Bytes) (fsize num : Int) (locs : List TermLocation)
-    (outs : List Bytes) (h : bestFragments v htmlFmt orig fsize num locs = some outs) :
-    ∃ best, bestSelection v orig fsize num locs = some best ∧ Forall2 (FaithfulTo stripHtml orig) best outs :=
-  bestFragments_faithful_aux stripOK_html v orig (fun _ _ => trivial) fsize num locs outs h
+/-- BestFragments with the HTML formatter, ANY text, locations, ORDER of the locations, size and count: the i-th
+returned string is (separator) + s + (separator) with `s` stripped = `orig[f.Start:f.End]` for the i-th selected
+fragment `f` — a contiguous piece of the original. -/
+theorem best_fragments_faithful_html (v : Variant) (orig : Bytes) (fsize num : Int) (locs ot : List TermLocation)
+    (outs : List Bytes) (h : bestFragmentsOrd v htmlFmt orig fsize num locs ot = some outs) :
+    ∃ best, bestSelectionOrd v orig fsize num locs ot = some best ∧ Forall2 (FaithfulTo stripHtml orig) best outs :=
+  bestFragments_faithful_aux stripOK_html v orig (fun _ _ => trivial) fsize num locs outs ot h
 
 theorem best_fragments_faithful_ansi (v : Variant) (orig : Bytes) (hesc : ∀ x ∈ orig, x ≠ 0x1B) (fsize num : Int)
-    (locs : List TermLocation) (outs : List Bytes)
-    (h : bestFragments v ansiFmt orig fsize num locs = some outs) :
-    ∃ best, bestSelection v orig fsize num locs = some best ∧ Forall2 (FaithfulTo stripAnsi orig) best outs :=
-  bestFragments_faithful_aux stripOK_ansi v orig hesc fsize num locs outs h
+    (locs ot : List TermLocation) (outs : List Bytes)
+    (h : bestFragmentsOrd v ansiFmt orig fsize num locs ot = some outs) :
+    ∃ best, bestSelectionOrd v orig fsize num locs ot = some best ∧ Forall2 (FaithfulTo stripAnsi orig) best outs :=
+  bestFragments_faithful_aux stripOK_ansi v orig hesc fsize num locs outs ot h
 
 /-! ## fragment bounds -/
 
@@ -117,33 +193,161 @@ theorem marks_sorted_disjoint (v : Variant) (f : Fragment) (tls : List (Option T
     (∀ m ∈ marks v f tls, f.start ≤ m.1 ∧ m.1 ≤ m.2) ∧ (marks v f tls).Pairwise (fun m n => m.2 ≤ n.1) :=
   ⟨marksLoop_ge v.locGuard f.stop tls f.start hle, marksLoop_sorted v.locGuard f.stop tls f.start hle⟩
 
-/-- what MergeOverlapping (with its `lastTl` that is never advanced) leaves: each entry starts where a
-location starts (same term) and ends where a location ends, and keeps Start ≤ End -/
-theorem merged_are_location_runs (locs : List TermLocation) (m : TermLocation) (h : some m ∈ mergeOverlapping locs) :
+/-- what MergeOverlapping leaves, ANY list: each entry starts where a location starts (same term) and ends
+where a location ends, and keeps Start ≤ End -/
+theorem merged_are_location_runs (mx : Bool) (locs : List TermLocation) (m : TermLocation)
+    (h : some m ∈ mergeOverlapping mx locs) :
     (∃ l ∈ locs, m.start = l.start ∧ m.term = l.term) ∧ (∃ l ∈ locs, m.stop = l.stop) ∧
     ((∀ l ∈ locs, l.start ≤ l.stop) → m.start ≤ m.stop) :=
   ⟨(mergeOverlapping_mem h).1, (mergeOverlapping_mem h).2, fun hr => mergeOverlapping_le hr h⟩
+
+/-- MergeOverlapping EXACTLY, on any list sorted by Start with non-empty spans (`lastTl` is set once and never
+advanced; `lastTl.End = tl.End` overwrites): the first location absorbs the maximal prefix of the following ones
+that each start before its CURRENT End (`absorbRun`), and is left with the End of the LAST location it absorbed
+(`mx = false`), resp. the largest End (`mx = true`, repair 5); the absorbed ones become nil; every later location —
+a second, third, … run of overlapping locations included — is left exactly as it was. -/
+theorem merge_exact (mx : Bool) (a : TermLocation) (rest : List TermLocation)
+    (hs : sortedByStart (a :: rest) = true) (hne : ∀ l ∈ a :: rest, l.start < l.stop) :
+    mergeOverlapping mx (a :: rest) =
+      some { a with stop := (absorbRun mx a.stop rest).2 } ::
+        (List.replicate (absorbRun mx a.stop rest).1 none ++ (rest.drop (absorbRun mx a.stop rest).1).map some) :=
+  mergeOverlapping_exact mx a rest hs hne
+
+/-- NESTED locations on a tree without repair 5: if the first location `a` contains the second one `b` and `b`
+ends strictly earlier, the merged entry is [a.Start, b.End) — the mark stops BEFORE the end of the matched
+occurrence `a` (and everything after `b.End` is left alone). -/
+theorem merge_nested_shrinks (a b : TermLocation) (rest : List TermLocation)
+    (hab : a.start ≤ b.start ∧ b.start < b.stop ∧ b.stop < a.stop)
+    (hrest : ∀ l ∈ rest, b.stop ≤ l.start ∧ l.start < l.stop) (hs : sortedByStart rest = true) :
+    mergeOverlapping false (a :: b :: rest) = some { a with stop := b.stop } :: none :: rest.map some := by
+  have hs' : sortedByStart (a :: b :: rest) = true := by
+    cases rest with
+    | nil => simp [sortedByStart]; omega
+    | cons c r =>
+      have := (hrest c (by simp)).1
+      simp only [sortedByStart, Bool.and_eq_true, decide_eq_true_eq] at hs ⊢
+      exact ⟨by omega, by omega, hs⟩
+  rw [merge_exact false a (b :: rest) hs' (by
+    intro l hl
+    simp only [List.mem_cons] at hl
+    rcases hl with h | h | h
+    · subst h; omega
+    · subst h; omega
+    · exact (hrest l h).2)]
+  have h1 : b.start < a.stop := by omega
+  have h2 : absorbRun false b.stop rest = (0, b.stop) := by
+    cases rest with
+    | nil => rfl
+    | cons c r =>
+      have := (hrest c (by simp)).1
+      simp only [absorbRun]
+      rw [if_neg (by omega)]
+  simp [absorbRun, h1, h2]
+
+/-- a CHAIN at the head of the list on a tree without repair 5: when the Ends never decrease along the sorted
+list (tokens; CJK bigrams), overwriting the End is taking the maximum — the current tree computes what the
+repaired one computes. -/
+theorem merge_monotone_eq_repaired (ot : List TermLocation) (hs : sortedByStart ot = true)
+    (hne : ∀ l ∈ ot, l.start < l.stop) (hm : monotoneStops ot = true) :
+    mergeOverlapping false ot = mergeOverlapping true ot := by
+  cases ot with
+  | nil => rfl
+  | cons a rest =>
+    rw [merge_exact false a rest hs hne, merge_exact true a rest hs hne,
+      absorbRun_monotone rest a.stop (monotone_head_le hm) (monotone_tail hm)]
+
+/-- the property text's sentence "every marked span is exactly one matched term occurrence or a run of overlapping
+ones", for the ordered slice `ot` BestFragments merges and formats with -/
+def MarksAreRuns (v : Variant) : Prop :=
+  ∀ (f : Fragment) (ot : List TermLocation), sortedByStart ot = true → (∀ l ∈ ot, l.start < l.stop) →
+    ∀ m ∈ marks v f (mergeOverlapping v.mergeMax ot), markOK ot m = true
+
+/-- FALSE on every tree without repair 5: "footballer" = [0,10) and the nested "ball" = [4,8) (what the
+dictionary-compound filter produces; also two values of a multi-valued field) are merged into [0,8): the mark
+"football" is neither of the two occurrences nor their union. -/
+theorem marks_are_runs_fails (v : Variant) (hv : v.mergeMax = false) : ¬ MarksAreRuns v := by
+  intro h
+  have := h ⟨0, 10, 0⟩ [⟨"footballer", 1, 0, 10⟩, ⟨"ball", 1, 4, 8⟩] (by decide) (by decide) (0, 8)
+  rw [hv] at this
+  unfold marks at this
+  cases hl : v.locGuard <;> rw [hl] at this <;> revert this <;> decide
+
+/-- every tree: the statement holds for every sorted list whose Ends never decrease — no location nested in an
+earlier one: the tokens of a tokenizer (disjoint) and the CJK bigrams (overlapping), i.e. every location set a
+bundled analyzer produces on one field value. -/
+theorem marks_are_runs_partial (v : Variant) (f : Fragment) (ot : List TermLocation) (hs : sortedByStart ot = true)
+    (hne : ∀ l ∈ ot, l.start < l.stop) (hm : monotoneStops ot = true) :
+    ∀ m ∈ marks v f (mergeOverlapping v.mergeMax ot), markOK ot m = true := by
+  intro m hmm
+  obtain ⟨tl, htl, rfl, _⟩ := marksLoop_mem' v.locGuard f.stop _ f.start m hmm
+  exact merged_entries_are_runs v.mergeMax ot hs hne (Or.inr hm) tl htl
+
+/-- a tree with repair 5 (MergeOverlapping keeps the larger End): the full statement. -/
+theorem marks_are_runs_repaired (v : Variant) (hv : v.mergeMax = true) : MarksAreRuns v := by
+  intro f ot hs hne m hmm
+  obtain ⟨tl, htl, rfl, _⟩ := marksLoop_mem' v.locGuard f.stop _ f.start m hmm
+  exact merged_entries_are_runs v.mergeMax ot hs hne (Or.inl hv) tl htl
+
+/-! ### the location sets of the bundled analyzers on one field value -/
+
+/-- the tokens of a tokenizer (sorted, disjoint, non-empty), the CJK bigrams of adjacent tokens, and any selection
+of an advancing list (the locations of the terms a query matched) advance strictly in both ends -/
+theorem bundled_locations_advance :
+    (∀ ot : List TermLocation, disjointLocs ot = true → (∀ l ∈ ot, l.start < l.stop) →
+      advancing ot = true ∧ advancing (bigramSpans ot) = true) ∧
+    (∀ l' l : List TermLocation, l'.Sublist l → advancing l = true → advancing l' = true) :=
+  ⟨fun _ hd hne => ⟨advancing_of_disjoint hd hne, advancing_bigrams hd hne⟩, fun _ _ hs h => advancing_sublist hs h⟩
+
+/-- an advancing list satisfies the premises of the partial theorems: sorted by Start, Ends never decrease,
+no two locations share a Start, no empty span -/
+theorem advancing_premises (ot : List TermLocation) (h : advancing ot = true) :
+    sortedByStart ot = true ∧ monotoneStops ot = true ∧ tiesAgree ot = true ∧ ∀ l ∈ ot, l.start < l.stop :=
+  ⟨advancing_sorted h, advancing_monotone h, advancing_tiesAgree h, advancing_nonempty h⟩
+
+/-- every tree, advancing locations (what a search with a bundled analyzer on ONE field value returns; the driver
+evaluates `advancing` on every such search): the output does not depend on the order OrderTermLocations chose, and
+every marked span is exactly one matched term occurrence or the union of a run of overlapping ones. -/
+theorem bundled_marks_and_order (v : Variant) (fm : Fmt) (orig : Bytes) (fsize num : Int) (locs ot : List TermLocation)
+    (ho : Ordered v locs ot) (ha : advancing ot = true) :
+    bestFragmentsOrd v fm orig fsize num locs ot = bestFragments v fm orig fsize num locs ∧
+    ∀ f : Fragment, ∀ m ∈ marks v f (mergeOverlapping v.mergeMax ot), markOK ot m = true :=
+  ⟨(best_order_irrelevant v fm orig fsize num locs ot ho.1 ho.2
+      (Or.inr (tiesAgree_perm ho.1 (advancing_tiesAgree ha)))).2,
+   fun f => marks_are_runs_partial v f ot (advancing_sorted ha) (advancing_nonempty ha) (advancing_monotone ha)⟩
+
+example : advancing (bigramSpans [⟨"日", 1, 0, 3⟩, ⟨"本", 2, 3, 6⟩, ⟨"語", 3, 6, 9⟩]) = true ∧
+    bigramSpans [⟨"日", 1, 0, 3⟩, ⟨"本", 2, 3, 6⟩, ⟨"語", 3, 6, 9⟩] = [⟨"日本", 1, 0, 6⟩, ⟨"本語", 2, 3, 9⟩] := by decide
 
 /-- on sorted, pairwise disjoint, non-empty locations (tokens) MergeOverlapping changes nothing, so the marks
 BestFragments produces are exactly matched term occurrences -/
 theorem marks_are_term_occurrences (v : Variant) (f : Fragment) (ot : List TermLocation) (hd : disjointLocs ot = true)
     (hne : ∀ l ∈ ot, l.start < l.stop) :
-    ∀ m ∈ marks v f (mergeOverlapping ot), ∃ l ∈ ot, m = (l.start, l.stop) ∧ l.stop ≤ f.stop :=
-  marks_term_occurrences_aux v.locGuard f.start f.stop ot hd hne
+    ∀ m ∈ marks v f (mergeOverlapping v.mergeMax ot), ∃ l ∈ ot, m = (l.start, l.stop) ∧ l.stop ≤ f.stop :=
+  marks_term_occurrences_aux v.mergeMax v.locGuard f.start f.stop ot hd hne
 
-example : mergeOverlapping [⟨"a", 1, 0, 5⟩, ⟨"b", 2, 3, 8⟩, ⟨"c", 3, 10, 15⟩, ⟨"d", 4, 12, 18⟩]
+/-- two runs: the first is merged, the second ("c", "d") is left as two entries — the formatter then marks "c"
+and skips "d", whose tail [15,18) stays unmarked -/
+example : mergeOverlapping false [⟨"a", 1, 0, 5⟩, ⟨"b", 2, 3, 8⟩, ⟨"c", 3, 10, 15⟩, ⟨"d", 4, 12, 18⟩]
     = [some ⟨"a", 1, 0, 8⟩, none, some ⟨"c", 3, 10, 15⟩, some ⟨"d", 4, 12, 18⟩] := by decide
+example : marks tree3 ⟨0, 20, 0⟩ (mergeOverlapping false [⟨"a", 1, 0, 5⟩, ⟨"b", 2, 3, 8⟩, ⟨"c", 3, 10, 15⟩, ⟨"d", 4, 12, 18⟩])
+    = [(0, 8), (10, 15)] := by decide
+/-- CJK bigrams 日本 [0,6), 本語 [3,9): Ends increase, the premise of `marks_are_runs_partial` holds, one mark [0,9) -/
+example : monotoneStops [⟨"日本", 1, 0, 6⟩, ⟨"本語", 2, 3, 9⟩] = true ∧
+    marks tree3 ⟨0, 9, 0⟩ (mergeOverlapping false [⟨"日本", 1, 0, 6⟩, ⟨"本語", 2, 3, 9⟩]) = [(0, 9)] := by decide
+/-- nested, repaired tree: one mark [0,10) -/
+example : marks repaired ⟨0, 10, 0⟩ (mergeOverlapping true [⟨"footballer", 1, 0, 10⟩, ⟨"ball", 1, 4, 8⟩]) = [(0, 10)] := by
+  decide
 
 /-! ## selection -/
 
-/-- ANY input: BestFragments selects at most `num` fragments, pairwise non-overlapping (`Fragment.Overlaps`),
-each of them one of the fragmenter's fragments (with its score). -/
-theorem best_nonoverlapping_at_most_num (v : Variant) (orig : Bytes) (fsize num : Int) (locs : List TermLocation)
-    (best : List Fragment) (h : bestSelection v orig fsize num locs = some best) :
+/-- ANY input and order: BestFragments selects at most `num` fragments, pairwise non-overlapping
+(`Fragment.Overlaps`), each of them one of the fragmenter's fragments (with its score). -/
+theorem best_nonoverlapping_at_most_num (v : Variant) (orig : Bytes) (fsize num : Int) (locs ot : List TermLocation)
+    (best : List Fragment) (h : bestSelectionOrd v orig fsize num locs ot = some best) :
     (best.length : Int) ≤ max num 0 ∧ best.Pairwise (fun a b => a.overlaps b = false) ∧
-    ∃ frags, fragment v orig fsize (orderTermLocations locs) = some frags ∧
+    ∃ frags, fragment v orig fsize ot = some frags ∧
       ∀ b ∈ best, ∃ f ∈ frags, b = { f with score := scoreOf locs f } :=
-  bestSelection_spec v orig fsize num locs best h
+  bestSelection_spec v orig fsize num locs ot best h
 
 /-- `Overlaps = false` on non-empty fragments means the byte ranges are disjoint -/
 theorem overlaps_false_iff_disjoint (a b : Fragment) (ha : a.start < a.stop) (hb : b.start < b.stop) :
@@ -151,38 +355,40 @@ theorem overlaps_false_iff_disjoint (a b : Fragment) (ha : a.start < a.stop) (hb
   overlaps_false_iff a b ha hb
 
 /-- as many strings as selected fragments, at most `num` -/
-theorem best_count (v : Variant) (fm : Fmt) (orig : Bytes) (fsize num : Int) (locs : List TermLocation)
-    (outs : List Bytes) (h : bestFragments v fm orig fsize num locs = some outs) : (outs.length : Int) ≤ max num 0 :=
-  bestFragments_count v fm orig fsize num locs outs h
+theorem best_count (v : Variant) (fm : Fmt) (orig : Bytes) (fsize num : Int) (locs ot : List TermLocation)
+    (outs : List Bytes) (h : bestFragmentsOrd v fm orig fsize num locs ot = some outs) : (outs.length : Int) ≤ max num 0 :=
+  bestFragments_count v fm orig fsize num locs ot outs h
 
 /-! ## no panic -/
 
-/-- the statement of the property: highlighting never panics, whatever the text and locations -/
+/-- the statement of the property: highlighting never panics, whatever the text, the locations and the order
+OrderTermLocations returns them in -/
 def NoPanic (v : Variant) : Prop :=
-  ∀ (fm : Fmt) (orig : Bytes) (fsize num : Int) (locs : List TermLocation), 1 ≤ fsize →
-    bestFragments v fm orig fsize num locs ≠ none
+  ∀ (fm : Fmt) (orig : Bytes) (fsize num : Int) (locs ot : List TermLocation), 1 ≤ fsize → ot.Perm locs →
+    bestFragmentsOrd v fm orig fsize num locs ot ≠ none
 
 /-- FALSE on the pinned tree: a location with a negative Start makes `orig[end:]` panic. -/
 theorem no_panic_fails : ¬ NoPanic pinned := by
   intro h
-  exact h htmlFmt [0x61] 5 1 [⟨"a", 1, -1, 1⟩] (by decide) (by decide)
+  exact h htmlFmt [0x61] 5 1 [⟨"a", 1, -1, 1⟩] [⟨"a", 1, -1, 1⟩] (by decide) (List.Perm.refl _) (by decide)
 
 /-- also FALSE for a location whose End is before its Start (`orig[Start:End]` in the formatter). -/
 theorem no_panic_fails_reversed : ¬ NoPanic pinned := by
   intro h
-  exact h htmlFmt [0x61, 0x62, 0x63] 5 1 [⟨"a", 1, 2, 1⟩] (by decide) (by decide)
+  exact h htmlFmt [0x61, 0x62, 0x63] 5 1 [⟨"a", 1, 2, 1⟩] [⟨"a", 1, 2, 1⟩] (by decide) (List.Perm.refl _) (by decide)
 
 /-- every tree, ANY text (valid UTF-8 or not), any fragment size ≥ 1, any count, either formatter, ANY location
-set whose locations have 0 ≤ Start ≤ End (unsorted, overlapping, nested, beyond the end, inside runes): no panic. -/
-theorem no_panic_partial (v : Variant) (fm : Fmt) (orig : Bytes) (fsize num : Int) (locs : List TermLocation)
-    (hf : 1 ≤ fsize) (hall : ∀ l ∈ locs, 0 ≤ l.start ∧ l.start ≤ l.stop) :
-    ∃ outs, bestFragments v fm orig fsize num locs = some outs :=
-  bestFragments_np v fm orig fsize num locs hf (Or.inr hall)
+list in ANY order whose locations have 0 ≤ Start ≤ End (unsorted, overlapping, nested, equal Starts, beyond the
+end, inside runes): no panic. -/
+theorem no_panic_partial (v : Variant) (fm : Fmt) (orig : Bytes) (fsize num : Int) (locs ot : List TermLocation)
+    (hf : 1 ≤ fsize) (hall : ∀ l ∈ ot, 0 ≤ l.start ∧ l.start ≤ l.stop) :
+    ∃ outs, bestFragmentsOrd v fm orig fsize num locs ot = some outs :=
+  bestFragmentsOrd_np v fm orig fsize num locs ot hf (Or.inr hall)
 
 /-- a tree with repair 2 (unusable locations ignored): the full statement, any text and ANY locations. -/
 theorem no_panic_repaired (v : Variant) (hv : v.locGuard = true) : NoPanic v := by
-  intro fm orig fsize num locs hf hn
-  obtain ⟨outs, h⟩ := bestFragments_np v fm orig fsize num locs hf (Or.inl hv)
+  intro fm orig fsize num locs ot hf _ hn
+  obtain ⟨outs, h⟩ := bestFragmentsOrd_np v fm orig fsize num locs ot hf (Or.inl hv)
   rw [h] at hn; cases hn
 
 /-- "a b" with the location [2,3) and one beyond the end: no panic, one fragment "a <mark>b</mark>" -/
@@ -192,34 +398,39 @@ example : bestFragments repaired htmlFmt [0x61] 5 1 [⟨"a", 1, -1, 1⟩] = some
 
 /-! ## the best fragment contains a match -/
 
-/-- the statement: if some location fits the fragment size, the first selected fragment contains a location -/
+/-- the statement: if some location fits the fragment size, the first selected fragment contains a location —
+for every admissible order of the locations -/
 def BestContainsMatch (v : Variant) : Prop :=
-  ∀ (orig : Bytes) (fsize num : Int) (locs : List TermLocation),
-    locsOK orig (orderTermLocations locs) = true → 1 ≤ fsize → 1 ≤ num → (∃ l ∈ locs, fits orig fsize l = true) →
-    ∃ top rest, bestSelection v orig fsize num locs = some (top :: rest) ∧ 1 ≤ top.score
+  ∀ (orig : Bytes) (fsize num : Int) (locs ot : List TermLocation), Ordered v locs ot →
+    locsOK orig ot = true → 1 ≤ fsize → 1 ≤ num → (∃ l ∈ locs, fits orig fsize l = true) →
+    ∃ top rest, bestSelectionOrd v orig fsize num locs ot = some (top :: rest) ∧ 1 ≤ top.score
 
 /-- FALSE on the pinned tree: the valid text "a �" (61 20 EF BF BD) with the location "a" = [0,1), size 5:
 `Fragment` bails on the genuine U+FFFD (decoded as RuneError, size 3) and returns no fragment at all. -/
 theorem best_contains_match_fails : ¬ BestContainsMatch pinned := by
   intro h
-  obtain ⟨top, rest, hb, _⟩ := h [0x61, 0x20, 0xEF, 0xBF, 0xBD] 5 1 [⟨"a", 1, 0, 1⟩] (by decide) (by decide) (by decide)
-    ⟨_, List.mem_singleton.mpr rfl, by decide⟩
-  have e : bestSelection pinned [0x61, 0x20, 0xEF, 0xBF, 0xBD] 5 1 [⟨"a", 1, 0, 1⟩] = some [] := by decide
+  obtain ⟨top, rest, hb, _⟩ := h [0x61, 0x20, 0xEF, 0xBF, 0xBD] 5 1 [⟨"a", 1, 0, 1⟩] [⟨"a", 1, 0, 1⟩]
+    ⟨List.Perm.refl _, by decide⟩ (by decide) (by decide) (by decide) ⟨_, List.mem_singleton.mpr rfl, by decide⟩
+  have e : bestSelectionOrd pinned [0x61, 0x20, 0xEF, 0xBF, 0xBD] 5 1 [⟨"a", 1, 0, 1⟩] [⟨"a", 1, 0, 1⟩] = some [] := by decide
   rw [e] at hb; cases hb
 
-/-- every tree, texts WITHOUT U+FFFD (valid UTF-8, no EF BF BD), locations sorted, in range, on rune boundaries:
-if some location is at most `fragmentSize` runes long, BestFragments (num ≥ 1) returns at least one fragment
-and the first one contains a location (score ≥ 1). -/
-theorem best_contains_match_partial (v : Variant) (orig : Bytes) (fsize num : Int) (locs : List TermLocation)
-    (hclean : cleanUtf8 orig = true) (hok : locsOK orig (orderTermLocations locs) = true) (hf : 1 ≤ fsize)
+/-- every tree, texts WITHOUT U+FFFD (valid UTF-8, no EF BF BD), locations in range and on rune boundaries, in
+any order sorted by Start: if some location is at most `fragmentSize` runes long, BestFragments (num ≥ 1) returns
+at least one fragment and the first one contains a location (score ≥ 1). -/
+theorem best_contains_match_partial (v : Variant) (orig : Bytes) (fsize num : Int) (locs ot : List TermLocation)
+    (ho : ot.Perm locs) (hclean : cleanUtf8 orig = true) (hok : locsOK orig ot = true) (hf : 1 ≤ fsize)
     (hnum : 1 ≤ num) (hfit : ∃ l ∈ locs, fits orig fsize l = true) :
-    ∃ top rest, bestSelection v orig fsize num locs = some (top :: rest) ∧ 1 ≤ top.score :=
-  best_top_score v orig fsize num locs ⟨clean_valid hclean, Or.inr hclean⟩ hok hf hnum hfit
+    ∃ top rest, bestSelectionOrd v orig fsize num locs ot = some (top :: rest) ∧ 1 ≤ top.score := by
+  obtain ⟨l, hl, hlf⟩ := hfit
+  exact best_top_score v orig fsize num locs ot (fun x hx => ho.subset hx) ⟨clean_valid hclean, Or.inr hclean⟩ hok hf hnum
+    ⟨l, ho.symm.subset hl, hlf⟩
 
 /-- a tree with repair 1 (`size <= 1` guards): the full statement, U+FFFD included. -/
 theorem best_contains_match_repaired (v : Variant) (hv : v.sizeGuard = true) : BestContainsMatch v := by
-  intro orig fsize num locs hok hf hnum hfit
-  exact best_top_score v orig fsize num locs ⟨locsOK_valid hok, Or.inl hv⟩ hok hf hnum hfit
+  intro orig fsize num locs ot ho hok hf hnum hfit
+  obtain ⟨l, hl, hlf⟩ := hfit
+  exact best_top_score v orig fsize num locs ot (fun x hx => ho.1.subset hx) ⟨locsOK_valid hok, Or.inl hv⟩ hok hf hnum
+    ⟨l, ho.1.symm.subset hl, hlf⟩
 
 example : cleanUtf8 [0x68, 0xC3, 0xA9] = true ∧ fits [0x68, 0xC3, 0xA9] 2 ⟨"hé", 1, 0, 3⟩ = true := by decide
 example : bestSelection repaired [0x61, 0x20, 0xEF, 0xBF, 0xBD] 5 1 [⟨"a", 1, 0, 1⟩] = some [⟨0, 5, 1⟩] := by decide
@@ -240,9 +451,8 @@ theorem gen_facts_match_model : BlugeGen.C20.facts = expectedFacts BlugeGen.C20.
 /-- the translated `Overlaps`, `Less` and scorer test are what the model uses -/
 theorem gen_overlaps_location (a b : TermLocation) : BlugeGen.C20.overlapsTL a b = a.overlaps b := overlapsTL_eq a b
 theorem gen_overlaps_fragment (a b : Fragment) : BlugeGen.C20.overlapsFrag a b = a.overlaps b := overlapsFrag_eq a b
-theorem gen_less (x y : TermLocation) (ys : List TermLocation) :
-    insertByStart x (y :: ys) = if BlugeGen.C20.lessTL x y = true then x :: y :: ys else y :: insertByStart x ys :=
-  insertByStart_less x y ys
+theorem gen_less (a b : TermLocation) : BlugeGen.C20.lessTL a b = lessTL BlugeGen.C20.variant.tieBreak a b :=
+  lessTL_gen a b
 theorem gen_score_test (locs : List TermLocation) (f : Fragment) :
     scoreOf locs f = (dedup ((locs.filter fun l => BlugeGen.C20.inside l f).map (·.term))).length :=
   scoreOf_inside locs f
